@@ -32,6 +32,7 @@ const c06Rule = "pairs (old, new) of individually valid generated models: self (
 func genC06(t *rapid.T) (C06Case, bool) {
 	cfg := model.DefaultGen()
 	cfg.MaxImports = 1
+	cfg.ArgRefPct = 30 // generics instantiated with records/enums, so that an edit inside one is seen through a type argument
 	old := model.GenPackage(t, &cfg)
 	c := C06Case{Gen: rapid.SampledFrom([]string{"self", "rewrite", "rewrite", "edit", "edit", "edit", "edit", "edit", "arbitrary"}).Draw(t, "gen")}
 	neu := old.Clone()
@@ -95,7 +96,9 @@ func genC06(t *rapid.T) (C06Case, bool) {
 		// there only totality and determinism are asserted
 		// (nor about changed types passed as generic arguments: it only lists "changing the type
 		// arguments" as incompatible)
-		if strings.Contains(c.Ctx, "map") || strings.Contains(c.Ctx, "array") || strings.Contains(c.Ctx, "arg") {
+		// An incompatible edit stays incompatible when the edited type is (also) reached through a
+		// generic argument: "recursively detects changes to named types".
+		if strings.Contains(c.Ctx, "map") || strings.Contains(c.Ctx, "array") || (strings.Contains(c.Ctx, "arg") && c.Class != "error") {
 			c.Class = "any"
 		}
 		if i := strings.Index(w, "."); i >= 0 && (e.Name == "make-optional" || e.Name == "make-non-optional") {
